@@ -8,6 +8,7 @@ import (
 
 	"go.amzn.com/lambda/core"
 	"go.amzn.com/lambda/rapi/rendering"
+	"go.amzn.com/lambda/vhook"
 
 	log "github.com/sirupsen/logrus"
 )
@@ -18,6 +19,7 @@ type invocationNextHandler struct {
 }
 
 func (h *invocationNextHandler) ServeHTTP(writer http.ResponseWriter, request *http.Request) {
+	vhook.At("rapi.next")
 	runtime := h.registrationService.GetRuntime()
 	err := runtime.Ready()
 	if err != nil {
